@@ -7,6 +7,33 @@ package sweep
 
 //@ spec func wfFee(cur int, end int, pos int, width int) bool = cur <= end && (pos >= width ==> cur == end)
 //@
+//@ // ---- A-fp: btcutil.Amount.MulF64 and float64 conversion/division are uninterpreted; the axioms
+//@ // ---- below are the IEEE-754 facts relied upon (monotone rounding, error below one unit for
+//@ // ---- magnitudes under 2^50).
+//@ spec func mulf64(a int, f float) int
+//@ extern func (btcutil.Amount) MulF64
+//@   ensures result == mulf64(a, f)
+//@ axiom mulf64_nonneg(a int, f float): a >= 0 && fle(flit(0), f) ==> mulf64(a, f) >= 0
+//@ axiom mulf64_mono(a int, f float, g float): a >= 0 && fle(f, g) ==> mulf64(a, f) <= mulf64(a, g)
+//@ axiom mulf64_frac(a int, p int): a >= 0 && p >= 0 && a*p <= 1<<59 ==>
+//@        mulf64(a, fquo(f64(p), flit(1000))) * 1000 <= a*p + 1000 && mulf64(a, fquo(f64(p), flit(1000))) >= 0
+//@ axiom frac_mono(p int, q int): 0 <= p && p <= q ==> fle(fquo(f64(p), flit(1000)), fquo(f64(q), flit(1000)))
+//@
+//@ spec func frAt(s int, e int, d int, w int, p int) int =
+//@      ite(p >= w, e, min(e, s + mulf64(d, fquo(f64(p), flit(1000)))))
+//@ // object invariant of LinearFeeFunction (beyond wfFee): the slope is non-negative and consistent
+//@ // with (end-start)/width, rates are in the float-exact range
+//@ spec func wfLin(s int, e int, d int, w int) bool =
+//@      0 <= s && s <= e && e <= 1<<40 && 0 <= d && d < 1<<62 && d*w <= (e-s)*1000 + w && w >= 0 && w < 1<<32
+//@
+//@ lemma frAtMono(s int, e int, d int, w int, p int, q int):
+//@      wfLin(s, e, d, w) && 0 <= p && p <= q ==> frAt(s, e, d, w, p) <= frAt(s, e, d, w, q)
+//@   props C18
+//@   uses frac_mono
+//@ lemma frAtBounds(s int, e int, d int, w int, p int):
+//@      wfLin(s, e, d, w) && 0 <= p ==> s <= frAt(s, e, d, w, p) && frAt(s, e, d, w, p) <= e
+//@   props C18
+//@
 //@ func (l *LinearFeeFunction) FeeRate
 //@   props C18
 //@   ensures result == l.currentFeeRate
@@ -14,13 +41,24 @@ package sweep
 //@
 //@ func (l *LinearFeeFunction) feeRateAtPosition
 //@   props C18
+//@   requires wfLin(l.startingFeeRate, l.endingFeeRate, l.deltaFeeRate, l.width)
+//@   ensures result == frAt(l.startingFeeRate, l.endingFeeRate, l.deltaFeeRate, l.width, p)
 //@   ensures result <= l.endingFeeRate
 //@   ensures p >= l.width ==> result == l.endingFeeRate
+//@   nowrap
 //@   modifies nothing
+//@
+//@ spec func wfAll(s int, e int, d int, w int, cur int, pos int) bool =
+//@      wfLin(s, e, d, w) && wfFee(cur, e, pos, w) && s <= cur && cur <= frAt(s, e, d, w, pos)
 //@
 //@ func (l *LinearFeeFunction) increaseFeeRate
 //@   props C18
-//@   requires wfFee(l.currentFeeRate, l.endingFeeRate, l.position, l.width)
+//@   uses frAtMono(l.startingFeeRate, l.endingFeeRate, l.deltaFeeRate, l.width, l.position, position); frAtBounds(l.startingFeeRate, l.endingFeeRate, l.deltaFeeRate, l.width, position)
+//@   requires wfAll(l.startingFeeRate, l.endingFeeRate, l.deltaFeeRate, l.width, l.currentFeeRate, l.position)
+//@   requires position > l.position
+//@   ensures  wfAll(l.startingFeeRate, l.endingFeeRate, l.deltaFeeRate, l.width, l.currentFeeRate, l.position)
+//@   ensures  l.currentFeeRate >= old(l.currentFeeRate)
+//@   ensures  result1 == nil ==> l.currentFeeRate == frAt(l.startingFeeRate, l.endingFeeRate, l.deltaFeeRate, l.width, position)
 //@   ensures  result1 != nil <==> old(l.position) >= old(l.width)
 //@   ensures  result1 != nil ==> result1 == ErrMaxPosition && l.position == old(l.position) && l.currentFeeRate == old(l.currentFeeRate)
 //@   ensures  result1 == nil ==> l.position == position
@@ -30,7 +68,10 @@ package sweep
 //@
 //@ func (l *LinearFeeFunction) Increment
 //@   props C18
-//@   requires wfFee(l.currentFeeRate, l.endingFeeRate, l.position, l.width) && l.position < 4294967295
+//@   requires wfAll(l.startingFeeRate, l.endingFeeRate, l.deltaFeeRate, l.width, l.currentFeeRate, l.position)
+//@   requires l.position < 4294967295
+//@   ensures  wfAll(l.startingFeeRate, l.endingFeeRate, l.deltaFeeRate, l.width, l.currentFeeRate, l.position)
+//@   ensures  l.currentFeeRate >= old(l.currentFeeRate)
 //@   ensures  result1 != nil <==> old(l.position) >= old(l.width)
 //@   ensures  result1 == nil ==> l.position == old(l.position) + 1
 //@   ensures  wfFee(l.currentFeeRate, l.endingFeeRate, l.position, l.width)
@@ -39,7 +80,10 @@ package sweep
 //@
 //@ func (l *LinearFeeFunction) IncreaseFeeRate
 //@   props C18
-//@   requires wfFee(l.currentFeeRate, l.endingFeeRate, l.position, l.width) && l.width < 4294967295
+//@   requires wfAll(l.startingFeeRate, l.endingFeeRate, l.deltaFeeRate, l.width, l.currentFeeRate, l.position)
+//@   requires l.width < 4294967295
+//@   ensures  wfAll(l.startingFeeRate, l.endingFeeRate, l.deltaFeeRate, l.width, l.currentFeeRate, l.position)
+//@   ensures  l.currentFeeRate >= old(l.currentFeeRate)
 //@   ensures  wfFee(l.currentFeeRate, l.endingFeeRate, l.position, l.width)
 //@   ensures  l.position >= old(l.position)
 //@   ensures  confTarget <= 1 && result1 == nil ==> l.currentFeeRate == l.endingFeeRate
@@ -65,3 +109,43 @@ package sweep
 //@   nowrap
 //@   modifies nothing
 //@   replay scalar
+//@
+//@ axiom mulf64_scale(a int, w int): a >= 0 && w >= 1 && a <= 1<<41 ==>
+//@        mulf64(a, fquo(flit(1000), f64(w))) >= 0 && mulf64(a, fquo(flit(1000), f64(w))) * w <= a*1000 + w
+//@
+//@ extern func (chainfee.Estimator) RelayFeePerKW
+//@   ensures result >= 0 && result <= 1<<40
+//@ extern func (chainfee.Estimator) EstimateFeePerKW
+//@   ensures result1 == nil ==> result0 >= 0 && result0 <= 1<<40
+//@
+//@ func (f FeeEstimateInfo) Estimate
+//@   props C18
+//@   requires 0 <= maxFeeRate && 0 <= f.FeeRate && f.FeeRate <= 1<<40
+//@   ensures  result1 == nil ==> result0 >= ret(RelayFeePerKW) || result0 == maxFeeRate
+//@   ensures  result1 == nil && maxFeeRate != 0 ==> result0 <= maxFeeRate
+//@   ensures  result1 == nil ==> 0 <= result0 && result0 <= 1<<40
+//@   ensures  result1 == nil ==> result0 == min(ite(maxFeeRate != 0, maxFeeRate, result0), result0)
+//@
+//@ func (l *LinearFeeFunction) estimateFeeRate
+//@   props C18
+//@   requires 0 <= l.endingFeeRate
+//@   ensures  result1 == nil ==> 0 <= result0 && result0 <= 1<<40
+//@   modifies nothing
+//@
+//@ func NewLinearFeeFunction
+//@   props C18
+//@   requires 0 <= maxFeeRate && maxFeeRate <= 1<<40
+//@   requires startingFeeRate.isSome ==> 0 <= startingFeeRate.some
+//@   ensures  result1 == nil ==> result0 != nil && result0.endingFeeRate == maxFeeRate &&
+//@            wfAll(result0.startingFeeRate, result0.endingFeeRate, result0.deltaFeeRate, result0.width, result0.currentFeeRate, result0.position)
+//@   ensures  result1 == nil ==> result0.startingFeeRate <= maxFeeRate && result0.currentFeeRate == result0.startingFeeRate && result0.position == 0
+//@   ensures  result1 == nil && confTarget <= 1 ==> result0.currentFeeRate == maxFeeRate
+//@   ensures  result1 == nil && confTarget > 1 ==> result0.width == confTarget - 1
+//@   ensures  result1 == nil && startingFeeRate.isSome && confTarget > 1 ==> result0.startingFeeRate == startingFeeRate.some
+//@   nowrap
+//@
+//@ func (t *TxPublisher) initializeFeeFunction
+//@   props C18
+//@   site call NewLinearFeeFunction: assert arg(maxFeeRate) == retn(MaxFeeRateAllowed, 0) && retn(MaxFeeRateAllowed, 1) == nil &&
+//@        arg(confTarget) == ret(calcCurrentConfTarget) && arg(startingFeeRate) == req.StartingFeeRate
+//@   site call calcCurrentConfTarget: assert arg(deadline) == req.DeadlineHeight
